@@ -1,7 +1,7 @@
 (* The code-shape parameters of the models, instantiated from the facts gosrc2v regenerates from
    the Go source on every run. *)
 From Coq Require Import List NArith ZArith Bool.
-From GP Require Import Generated Model.Handshake Model.Stderr.
+From GP Require Import Generated Model.Handshake Model.Stderr Model.Env.
 
 Definition gen_hs_params : hs_params :=
   {| hp_core := core_protocol_version;
@@ -15,3 +15,9 @@ Definition gen_sd_params : sd_params :=
      sp_prefixes := stderr_text_prefixes;
      sp_drains_after_scan_stop := start_drains_stdout_after_scanner;
      sp_default_buf := default_log_buffer |}.
+
+Definition gen_env_params : env_params :=
+  {| ep_clears_inherited := start_clears_inherited_cert && start_clears_inherited_mux;
+     ep_mux_key := env_multiplex_grpc;
+     ep_group_key := env_unix_socket_group;
+     ep_dir_key := env_unix_socket_dir |}.
